@@ -27,7 +27,7 @@ ALL_KINDS = ["io", "timer", "tcp", "udp", "lst", "acc", "pkt", "peer", "file", "
 BUGS = dict(
     BUG_ConnectLeak="FALSE", BUG_PacketBindLeak="FALSE", BUG_PeerLeak="FALSE", BUG_WsLeak="FALSE",
     BUG_ListenerNoGuard="FALSE", BUG_PacketNoGuard="FALSE", BUG_TimerRevive="FALSE",
-    BUG_AdapterRawClose="FALSE", BUG_EarlyDeregister="FALSE", BUG_CloseKeepsFd="FALSE", BUG_WsResetLeak="FALSE", BUG_ForeignDeregister="FALSE",
+    BUG_AdapterRawClose="FALSE", BUG_EarlyDeregister="FALSE", BUG_CloseKeepsFd="FALSE", BUG_RepeatRearmsClosed="FALSE", BUG_WsResetLeak="FALSE", BUG_ForeignDeregister="FALSE",
     BUG_SocketNonblockLeak="TRUE", BUG_AcceptLeak="TRUE")
 
 BEFORE_REPAIR = {k: "TRUE" for k in BUGS}
